@@ -20,7 +20,8 @@ var bip173Gen = []uint64{0x3b6a57b2, 0x26508e6d, 0x1ea119fa, 0x3d4233dd, 0x2a146
 func charsetTables(c *Ctx) (enc []uint64, dec []uint64, err error) {
 	in := bitdom.New(c.P.SSA, c.wordBits())
 	pk := c.P.Pkg("pkg/bech32")
-	g, ok := pk.Members["charset"].(*ssa.Global)
+	g := c.gvar("pkg/bech32", "charset")
+	ok := g != nil
 	if !ok {
 		return nil, nil, fmt.Errorf("package variable charset not found")
 	}
